@@ -327,6 +327,41 @@ scan
 reopen
 getall
 """),
+    dict(tags=['scn_seek_compaction'], big=False, text="""put 0
+put 1
+put 2
+put 3
+put 4
+put 5
+put 6
+put 7
+put 8
+put 9
+flush
+put 0
+put 9
+flush
+put 0
+put 9
+flush
+getall
+getall
+getall
+getall
+getall
+getall
+getall
+getall
+getall
+getall
+getall
+getall
+quiesce
+getall
+scan
+reopen
+getall
+"""),
     dict(tags=['scn_deep_reopen2'], big=False, text="""put 0
 put 9
 flush
